@@ -113,7 +113,7 @@ func genesisCoq(o *Obs) string {
 	for i := range o.Vals {
 		vals = append(vals, valCoq(&o.Vals[i]))
 	}
-	return fmt.Sprintf("(mkState 0 %s %s [] %s %s [] [] [] false 0 0 0 0 0 0)", lst(bal), lst(non), lst(vals), vstatCoq(o))
+	return fmt.Sprintf("(mkState 0 %s %s [] %s %s [] [] [] [] 0 0 0 0 0 0)", lst(bal), lst(non), lst(vals), vstatCoq(o))
 }
 
 func (w *World) vid(k int) int64 {
@@ -174,7 +174,7 @@ func (w *World) txCoq(t *TxIn, o *TxOut) string {
 	default:
 		body = "(TxStake " + w.actionCoq(t) + ")"
 	}
-	return fmt.Sprintf("mkTx %d %d %d %d %d %d %s", o.ID, w.aid(t.From), o.Nonce, t.Gas, t.Price, o.IGas, body)
+	return fmt.Sprintf("mkTx %s %d %d %d %d %d %s", zi(o.ID), w.aid(t.From), o.Nonce, t.Gas, t.Price, o.IGas, body)
 }
 
 func (w *World) blockCoq(b *BlockIn, o *BlockOut) string {
